@@ -229,7 +229,7 @@ V("O11.1", ["C11", "C02", "C05"], "c11_control", expect_verified=10,
 # ---------------------------------------------------------------------------------------------
 # C09 names
 # ---------------------------------------------------------------------------------------------
-V("O09.1w", ["C09", "C17", "C02"], "c09_names", expect_verified=20,
+V("O09.1w", ["C09", "C17", "C02", "C12"], "c09_names", expect_verified=20,
   functions=["Context::new", "Context::max_size", "SymbolTable::new", "SymbolTable::new_context", "SymbolTable::leave_context", "SymbolTable::current_context", "SymbolTable::in_function", "SymbolTable::resolve", "SymbolTable::define", "SymbolTable::enter_scope", "SymbolTable::leave_scope", "SymbolTable::reset_to_global",
              "lemmas over the contracts of Context::define / resolve: lemma_inner_scope, lemma_declare_takes_over, lemma_declare_frames_others, lemma_block_roundtrip, lemma_table_block_roundtrip, lemma_slot_in_range"],
   desc="real struct definitions (R9) and verbatim bodies: declarations go to the innermost scope of the innermost context; a block opens / closes exactly one scope; lookup tries the current context, then - only inside a function - the GLOBAL context, never an enclosing function's; a function's context is pushed / popped as a whole; reset keeps only the outermost global scope. Lemmas (all sizes) over the view contracts of Context::define / resolve: shadowing, latest declaration wins, other names unaffected, block end forgets, slots in range")
@@ -247,8 +247,8 @@ K("O09.1g", ["C09", "C02"], "symbols", "c09_table_resolve_twin_global_block", le
   desc="bounded twin: a function body sees the globals of every open global scope (a function defined inside a top-level block), innermost first, at the slot Context::resolve gives them (added after seeded change C09-5 turned the Verus unit undecided)")
 K("O09.res3", ["C09"], "symbols", "c09_resolve_three_scopes", level="bounded", tier="thorough", bound="three open scopes of 0..=2 names each over {a, b}", functions=["Context::resolve", "Context::total_len"], timeout=1500,
   desc="thorough tier: O09.res for three scopes")
-K("O05.sym", ["C05", "C09"], "symbols", "c05_define_total", functions=["Context::define"],
-  desc="declaring a name is total for EVERY number of names already in the context (symbolic count in the enclosing scopes): slot == count as u16, or an error value and an unchanged context - never a panic")
+K("O05.sym", ["C05", "C09", "C12"], "symbols", "c05_define_total", functions=["Context::define"],
+  desc="declaring a name is total for EVERY number of names already in the context (symbolic count in the enclosing scopes): slot == count as u16, or an error value and an unchanged context - never a panic; every declaration counts towards the context's size (the number of slots a call reserves for the function: C12)")
 K("O09.2", ["C09"], "lib", "c09_eval_order", functions=["eval"],
   desc="eval enters the machine only after parse and compile succeeded (stages replaced by recorders): a compile-time reference error precedes any output")
 
